@@ -4,8 +4,10 @@
 `Boom.boom: {name: <ExceptionName>, msg: <index into HOSTILE>}` raises it with that text (the empty text
 makes an exception whose str() is empty); any attribute whose name starts with `boom` is such a function
 (so that the function name itself can carry hostile text: `Boom.boom{x}`); `Boom.text: s` returns the
-string s; `Boom.obj` returns an object no field may hold; any other attribute does not exist (attribute
-lookup fails).
+string s; `Boom.obj` returns an object no field may hold; `Boom.items: {n: k, repeat: bool}` returns an iterator
+(a PluginResultIterator written the way the dataset iterators are: start / next_result) over k records - k = 0 is a
+source that is used up before it gave anything, also after every restart; any other attribute does not exist
+(attribute lookup fails).
 
 HOSTILE is the alphabet of text a recipe author controls and that ends up inside error messages and
 format / template operations: table names, nicknames, field names, variable names, option names, macro
@@ -16,6 +18,10 @@ try:
     from snowfakery.plugins import SnowfakeryPlugin
 except ImportError:          # the harness process imports this module for HOSTILE only
     SnowfakeryPlugin = object
+try:
+    from snowfakery.plugins import PluginResultIterator, PluginResult
+except ImportError:
+    PluginResultIterator = PluginResult = None
 
 HOSTILE = [
     "{", "}", "{}", "{0}", "{1}", "{x}", "{e}", "{{", "}}", "{{}}", "{e.__class__}", "{0!r}", "{:>10}", "{e!s:{e}}",
@@ -57,3 +63,24 @@ class Boom(SnowfakeryPlugin):
 
         def obj(self, *a):
             return {"not": "a field value"}.keys()
+
+        def items(self, _=None, *, n=0, repeat=True):
+            if PluginResultIterator is None:
+                raise AttributeError("items")
+            return _Items(int(n), bool(repeat))
+
+
+if PluginResultIterator is not None:
+    class _Items(PluginResultIterator):
+        """k records, then used up; restart begins again (with none, if k = 0)"""
+
+        def __init__(self, n, repeat):
+            super().__init__(repeat)
+            self.n = n
+            self.start()
+
+        def start(self):
+            self.results = iter([PluginResult({"City": "c%d" % i, "Number": i}) for i in range(self.n)])
+
+        def next_result(self):
+            return next(self.results)
